@@ -268,7 +268,14 @@ func listPins(st state.ReadOnly) ([]mpin, error) {
 	}
 	l := make([]mpin, 0, len(pins))
 	for _, p := range pins {
-		l = append(l, fromAPI(p))
+		m := fromAPI(p)
+		// the listed pin must also be reachable by key
+		got, err := st.Get(context.Background(), p.Cid)
+		has, err2 := st.Has(context.Background(), p.Cid)
+		if err != nil || err2 != nil || !has || got == nil || fromAPI(got).String() != m.String() {
+			m.cid = unknownIdx
+		}
+		l = append(l, m)
 	}
 	sort.SliceStable(l, func(i, j int) bool {
 		if l[i].cid != l[j].cid {
@@ -428,7 +435,7 @@ func runPins(c pinsCase) string {
 	ctx := context.Background()
 	dir := scratch("pins")
 	defer os.RemoveAll(dir)
-	res := map[string]string{"exp": "-", "expc": "-", "mar": "-", "snap": "-", "start": "-"}
+	res := map[string]string{"exp": "-", "expc": "-", "mar": "-", "marx": "-", "snap": "-", "start": "-"}
 
 	src, err := newMemState(c.gen, dssync.MutexWrap(ds.NewMapDatastore()), "/src")
 	if err != nil {
@@ -455,6 +462,26 @@ func runPins(c pinsCase) string {
 		})
 		res["mar"] = rt(err == nil, tgt)
 	}()
+
+	// (c') a cut Marshal stream: Unmarshal must still have emptied the target first
+	if c.damage != 0 {
+		func() {
+			var buf bytes.Buffer
+			tgt, err := newMemState(c.prior, dssync.MutexWrap(ds.NewMapDatastore()), "/tgt")
+			if err != nil {
+				res["marx"] = "err;?"
+				return
+			}
+			err = safely(func() error {
+				if err := src.Marshal(&buf); err != nil {
+					return err
+				}
+				b := buf.Bytes()
+				return tgt.Unmarshal(bytes.NewReader(b[:len(b)/2]))
+			})
+			res["marx"] = rt(err == nil, tgt)
+		}()
+	}
 
 	// (b) SnapshotSave -> OfflineState onto a store holding `prior`
 	cfgA := raftCfg(filepath.Join(dir, "A", "raft"), 3)
@@ -572,8 +599,8 @@ func runPins(c pinsCase) string {
 		res["start"] = startOnSnapshot(filepath.Join(dir, "S", "raft"), src)
 	}
 
-	return fmt.Sprintf("src=%s exp=%s expc=%s mar=%s snap=%s start=%s", showPins(srcList),
-		res["exp"], res["expc"], res["mar"], res["snap"], res["start"])
+	return fmt.Sprintf("src=%s exp=%s expc=%s mar=%s snap=%s start=%s marx=%s", showPins(srcList),
+		res["exp"], res["expc"], res["mar"], res["snap"], res["start"], res["marx"])
 }
 
 // startOnSnapshot saves the state as a snapshot for a single-peer cluster and starts the
